@@ -10,6 +10,7 @@ import hashlib
 import importlib
 import inspect
 import os
+import re
 import sys
 import time
 import types as pytypes
@@ -43,6 +44,8 @@ class Contract:
         # generators only: what other code may do to the object while this generator is suspended at a yield
         # dict(lets={name: clause}, modifies=[places], rely=[clauses over the state before (lets) and after])
         self.interference = kw.pop("interference", None)
+        # template mode: callees to be left uninterpreted (app_<name>) even when they have a contract of their own
+        self.opaque_calls = kw.pop("opaque_calls", [])
         self.asserts = kw.pop("asserts", [])  # intermediate facts at the exit: proved, then assumed for the postcondition
         self.yields = kw.pop("yields", None)  # elem Ty for generators
         self.yields_expr = kw.pop("yields_expr", None)  # clause: the whole sequence the generator yields
@@ -332,7 +335,9 @@ class World:
         raise OutOfSubset(f"isinstance({v!r}, {cls!r})")
 
     def val_isinstance(self, ex, v, cls):
-        raise OutOfSubset("isinstance on an opaque value")
+        # the class of an opaque value: an uninterpreted predicate per class (the same test gives the same answer)
+        name = re.sub(r"\W", "_", getattr(cls, "__name__", None) or getattr(cls, "name", None) or "x")
+        return SV(z3.Function("isinstance_" + name, v.ty.sort(), z3.BoolSort())(v.z), BOOL)
 
     def type_of(self, ex, v):
         from .state import Ref, ListCell
